@@ -12,7 +12,7 @@ import logging
 import kopf
 import vkopf
 from vkopf.driver_api import Ob, split
-from vkopf.symloop import SymLoop
+from vkopf.symloop import SymLoop, Deadlock, Diverged, Livelock
 from vkopf.world import make_resource, PLURAL, base_body
 
 from kopf._cogs.configs import configuration
@@ -21,11 +21,14 @@ from kopf._core.actions import execution
 from kopf._core.intents import causes, registries
 
 logging.disable(logging.CRITICAL)
-ENCODED = [execution.execute_handler_once, execution.invoke_handler]
+from kopf._core.engines import activities as _activities
+ENCODED = [execution.execute_handler_once, execution.invoke_handler, _activities.run_activity, execution.execute_handlers_once]
 META = {
     'bounds': 'H1: one invocation; exception kind in {none, Temporary(delay symbolic or None), Permanent, arbitrary}; errors mode in '
               '{default, TEMPORARY, PERMANENT, IGNORED}; retries limit None or symbolic>=0; timeout None or symbolic>0; backoff None or '
-              'symbolic>=0; recorded retries symbolic>=0; runtime symbolic>=0 (reals).',
+              'symbolic>=0; recorded retries symbolic>=0; runtime symbolic>=0 (reals). '
+              'H3: two start-up handlers with outcome scripts of <=3 attempts each (ok/temporary/arbitrary/permanent), symbolic delays, '
+              'retries limits <=4, symbolic backoff -- through the real run_activity().',
     'outside': 'sync handlers in threads; asyncio.TimeoutError cancellation of a running coroutine at the timeout (not implemented by kopf for change handlers)',
     'stubs': ['HandlerState protocol stub (retries/runtime/started)'],
     'assumptions': [],
@@ -137,5 +140,117 @@ def h_table(kind: int, has_delay: bool, delay: int, mode: int, has_rl: bool, rl:
     return vkopf.verdict(ok)
 
 
+# ------------------------------------------------------------------------------ H3 activities with several handlers
+def run_activity_script(scripts, delays, limits, backoff):
+    """The real activities.run_activity() (start-up) with two handlers following outcome scripts
+    (0 ok, 1 TemporaryError(delay), 2 arbitrary error, 3 PermanentError). Returns (calls, error)."""
+    from kopf._core.actions import lifecycles, progression
+    from kopf._core.engines import activities
+    from vkopf import shimdt
+    loop = SymLoop()
+    registry = registries.OperatorRegistry()
+    calls = [[], []]
+
+    def make(i):
+        async def fn(retry, **kw):
+            calls[i].append((loop.time(), retry))
+            n = len(calls[i])
+            k = scripts[i][n - 1] if n <= len(scripts[i]) else 0
+            if k == 1:
+                raise kopf.TemporaryError('t', delay=delays[i])
+            if k == 2:
+                raise ValueError('x')
+            if k == 3:
+                raise kopf.PermanentError('p')
+        return fn
+    for i in (0, 1):
+        kopf.on.startup(id='h%d' % i, registry=registry, retries=limits[i], backoff=backoff)(make(i))
+    settings = configuration.OperatorSettings()
+
+    async def main():
+        try:
+            await activities.run_activity(lifecycle=lifecycles.all_at_once, registry=registry, settings=settings,
+                                          activity=causes.Activity.STARTUP, indices={}, memo=ephemera.Memo())
+            return None
+        except activities.ActivityError as e:
+            return e
+    with shimdt.installed(progression):      # activities keep their state in memory: timestamps stay symbolic
+        err = loop.run(main(), max_steps=20000)
+    return calls, err
+
+
+def expected_attempts(script, limit):
+    """Reference: how many times a handler with this outcome script is invoked, and whether it ends failed for good."""
+    n = 0
+    while True:
+        if limit is not None and n >= limit:
+            return n, True                      # the limit is reached before the next attempt: failed for good
+        k = script[n] if n < len(script) else 0
+        n += 1
+        if k == 0:
+            return n, False
+        if k == 3:
+            return n, True
+        if limit is not None and n >= limit:
+            return n, True                      # the last allowed attempt failed
+
+
+def h_activity(a0: int, a1: int, a2: int, b0: int, b1: int, b2: int, da: int, db: int, has_la: bool, la: int, has_lb: bool, lb: int,
+               backoff: int) -> bool:
+    """
+    pre: 0 <= a0 <= 3 and 0 <= a1 <= 3 and 0 <= a2 <= 3 and 0 <= b0 <= 3 and 0 <= b1 <= 3 and 0 <= b2 <= 3
+    pre: 0 <= da and 0 <= db and 1 <= la <= 4 and 1 <= lb <= 4 and 0 <= backoff
+    post: _ == True
+    """
+    vkopf.begin_path()
+    a0, a1, b0, b1 = vkopf.pin('a0', a0), vkopf.pin('a1', a1), vkopf.pin('b0', b0), vkopf.pin('b1', b1)
+    has_la, has_lb = vkopf.pin('has_la', has_la), vkopf.pin('has_lb', has_lb)
+    a2, b2 = vkopf.pin('a2', a2), vkopf.pin('b2', b2)
+    ln = vkopf.cell().get('len', 3)
+    scripts = [[a0, a1, a2][:ln], [b0, b1, b2][:ln]]
+    if la > ln + 1 or lb > ln + 1:
+        return True                             # limits beyond the script length + 1 behave alike
+    delays = [da, db]
+    limits = [la if has_la else None, lb if has_lb else None]
+    try:
+        calls, err = run_activity_script(scripts, delays, limits, backoff)
+    except (Deadlock, Diverged, Livelock):
+        return vkopf.verdict(False)
+    ok = True
+    failed_any = False
+    for i in (0, 1):
+        want_n, want_failed = expected_attempts(scripts[i], limits[i])
+        failed_any = failed_any or want_failed
+        # invoked exactly as often as its own outcomes and limits say -- whatever the other handler does meanwhile
+        if len(calls[i]) != want_n:
+            ok = False
+        if [r for (_, r) in calls[i]] != list(range(len(calls[i]))):
+            ok = False                          # the retry counter counts this handler's own attempts
+        # never sooner than the requested delay / the backoff after the previous attempt
+        for j in range(1, len(calls[i])):
+            k = scripts[i][j - 1]
+            need = delays[i] if k == 1 else backoff
+            if calls[i][j][0] < calls[i][j - 1][0] + need:
+                ok = False
+        if len(calls[i]) > 1:
+            vkopf.witness('retried')
+    if (err is not None) != failed_any:
+        ok = False
+    if failed_any:
+        vkopf.witness('activity_failed')
+    return vkopf.verdict(ok)
+
+
 def obligations():
-    return split(Ob('h_table', {}, timeout=900, twins=['retry_scheduled', 'failed_for_good']), kind=[0, 1, 2, 3], mode=[0, 1, 2, 3])
+    obs = split(Ob('h_table', {}, timeout=900, twins=['retry_scheduled', 'failed_for_good']), kind=[0, 1, 2, 3], mode=[0, 1, 2, 3])
+    # activities: the outcome scripts are pinned per cell; delays, backoff and the retries limits are symbolic
+    for (a0, a1, b0, b1, hla, hlb) in ((1, 0, 2, 0, False, False), (2, 1, 1, 0, True, False), (1, 1, 1, 2, True, True), (2, 3, 1, 1, False, True)):
+        obs.append(Ob('h_activity', {'len': 2, 'pin': {'a0': a0, 'a1': a1, 'b0': b0, 'b1': b1, 'has_la': hla, 'has_lb': hlb}}, tiers=('quick',),
+                      timeout=900))
+    obs.append(Ob('h_activity', {'len': 2, 'pin': {'a0': 1, 'b0': 2}}, tiers=('quick', 'thorough'), timeout=300, twins=['retried', 'activity_failed'],
+                  main=False))
+    obs += split(Ob('h_activity', {'len': 2}, tiers=('thorough',), timeout=1800), a0=[0, 1, 2, 3], b0=[1, 2], a1=[0, 1, 2, 3], b1=[0, 1, 2],
+                 has_la=[False, True])
+    obs += split(Ob('h_activity', {'len': 3, 'pin': {'has_lb': False}}, tiers=('thorough',), timeout=1800), a0=[1, 2], b0=[1, 2], a1=[1, 2], b1=[1, 2],
+                 a2=[0, 1, 3], b2=[0, 2])
+    return obs
